@@ -59,6 +59,9 @@ def family_notations():
         ('syn_in_X0', 1, p.App(p.SVar(0), p.MetaVar(0)), '(X0 @ {0})'),
         ('syn_second', 2, p.App(p.Symbol('second'), p.MetaVar(1)), 'second({0}, {1})'),
         ('syn_nest', 1, p.neg(p.App(p.MetaVar(0), p.EVar(0))), '~({0} @ x0)'),
+        # defined THROUGH another notation with its parameters permuted / shifted (the inner node maps 0 -> phi1, 1 -> phi0)
+        ('syn_rand', 2, p._and(p.MetaVar(1), p.MetaVar(0)), '({0} rand {1})'),
+        ('syn_shift', 3, p._or(p.MetaVar(1), p.MetaVar(2)), 'shift({0}; {1}, {2})'),
     ]
     for label, arity, d, fmt in syn:
         out[label] = (_cached_notation(label, arity, d, fmt), 'synthetic')
